@@ -179,7 +179,7 @@ var c19Malformed = []string{"host=\"unterminated", "host", "=x", ";;;", "host==a
 
 func genC19Derived(t *rapid.T) C19Case {
 	c := C19Case{Kind: "derived", Insecure: rapid.Bool().Draw(t, "insecure")}
-	c.Path = rapid.SampledFrom([]string{"", "", "/", "/saml", "saml", "a/b", "/x/", "/saml/v2"}).Draw(t, "path")
+	c.Path = rapid.SampledFrom([]string{"", "", "/", "/saml", "saml", "a/b", "/x/", "/saml/v2", "/saml%2Fv2", "//tenants/saml", "tenant%20a/saml", "/idp%3Fdebug", "/ä", "/a b"}).Draw(t, "path")
 	c.Mode = rapid.SampledFrom([]string{"host", "forwarded", "forwarded", "custom", "custom"}).Draw(t, "mode")
 	switch c.Mode {
 	case "forwarded":
